@@ -25,17 +25,22 @@ def run(ctx):
         w = se.witness(ctx, g, b, invariants=("TypeOK",), regenerate=not quick)
         ctx.guards[g] = (f"load-bearing on {b}: {w['invariant']} at depth {w['depth']}" if w["found"]
                          else f"no counterexample on {b}")
-        res = se.replay_witness(ctx, w, "C05", extra_runs=4 if quick else 30)
+        res = se.replay_witness(ctx, w, "C05", extra_runs=ctx.n(4, 30))
         if res:
             ctx.notes.setdefault("witness_replays", {})[g] = [s["guided"][:2] for s in res[0]["scenarios"]]
     # 3. the code under the controller: park has no timeout there, so a lost wake-up / lost re-offer is
     #    a detected deadlock; includes error, fallback and panic paths
     names = ["chain2", "rmw3", "dd3", "stale_fatal2", "fatal_in_order2", "grow_shrink3"]
     for workers in (1, 2, 3):
-        r, out, args = se.controlled(ctx, names, (40 if quick else 1500), workers=workers, tag=f"w{workers}")
+        r, out, args = se.controlled(ctx, names, (ctx.n(40, 1500)), workers=workers, tag=f"w{workers}")
         se.report(ctx, r, args, "C05")
         if workers == 2:
             se.validate(ctx, r, out, "trace_w2")
+    # the error parking protocol (key_tx against the commit of the predecessor) at the grain of the dependency
+    # graph's own hook points: a transaction parked behind a boundary that has already passed is stranded
+    r, out, args = se.controlled(ctx, ["stale_fatal2", "invalid_stale2", "stale_fatal2_nocheck", "invalid_mid_fault4"], ctx.n(400, 6000),
+                                 workers=2, groups=("SCHED", "DEP", "DEPX"), tag="dep_grain")
+    se.report(ctx, r, args, "C05")
     bs = se.blocks()
     scn = []
     for n in ("chain2", "rmw3"):
@@ -45,7 +50,7 @@ def run(ctx):
             s["name"] = f"{n}@{key}:panic"
             s["fault"] = {"key": key, "mode": "panic"}
             scn.append(s)
-    args = {"groups": ["SCHED"], "workers": 2, "max_runs": 15 if quick else 300, "seed": ctx.seed, "policy": "pct",
+    args = {"groups": ["SCHED"], "workers": 2, "max_runs": ctx.n(15, 300), "seed": ctx.seed, "policy": "pct",
             "out": ctx.path("panic.ndjson"), "scenarios": scn}
     r = ctx.vh("sched", args, timeout=3000)
     se.report(ctx, r, args, "C05")
